@@ -14,6 +14,8 @@ import (
 	"testing"
 	"time"
 
+	hclog "github.com/hashicorp/go-hclog"
+	plugin "github.com/hashicorp/go-plugin"
 	"github.com/hashicorp/go-plugin/verifharness/vp"
 )
 
@@ -27,6 +29,114 @@ type sioCase struct {
 	// StartTimeoutMs: the client's StartTimeout; a script that goes on for longer than that after the
 	// host attached must still be delivered (the timeout is about starting, not about the streams)
 	StartTimeoutMs int `json:"start_timeout_ms,omitempty"`
+	// Kind "handover" (gRPC): host A's stdout writer stalls while the plugin prints numbered records; A's
+	// connection goes away with output backed up; host B reattaches to the plugin, which kept running. What B
+	// receives has to be a gap-free, in-order run of the records.
+	Kind     string `json:"kind,omitempty"`
+	StallMs  int    `json:"stall_ms,omitempty"`
+	OnStream string `json:"on_stream,omitempty"`
+}
+
+// gateWriter lets the first write through to nobody and then blocks until released
+type gateWriter struct {
+	entered chan struct{}
+	release chan struct{}
+	once    sync.Once
+}
+
+func (g *gateWriter) Write(p []byte) (int, error) {
+	g.once.Do(func() { close(g.entered) })
+	<-g.release
+	return len(p), nil
+}
+
+func runHandoverCase(c sioCase, bin, tmp string) map[string]interface{} {
+	out := map[string]interface{}{"setup_ok": false, "panic": false, "alive": false, "b_records": 0, "b_runs": 0, "b_garbage": 0}
+	wire, mux := protoSets(c.Proto)
+	pc := &vp.PluginCfg{LegacyVersion: 1, Legacy: &vp.SetCfg{Proto: wire, Tag: "1"}, GRPCServer: wire == "grpc"}
+	hc := &vp.HostCfg{LegacyVersion: 1, Legacy: &vp.SetCfg{Proto: "grpc", Tag: "1"}, Allowed: []string{"netrpc", "grpc"}, Mux: mux, TempDir: tmp}
+	p := vp.NewPair(bin, hc, pc, []string{"TMPDIR=" + tmp}, nil)
+	gate := &gateWriter{entered: make(chan struct{}), release: make(chan struct{})}
+	if c.OnStream == "err" {
+		p.Config.SyncStderr = gate
+	} else {
+		p.Config.SyncStdout = gate
+	}
+	p.Client = plugin.NewClient(p.Config)
+	defer p.Client.Kill()
+	defer close(gate.release)
+	stub, cp, err := p.Dispense()
+	if err != nil {
+		out["err"] = err.Error()
+		return out
+	}
+	gc, ok := cp.(*plugin.GRPCClient)
+	if !ok {
+		out["err"] = "handover needs a gRPC client"
+		return out
+	}
+	stream := "out"
+	if c.OnStream == "err" {
+		stream = "err"
+	}
+	go stub.Do(vp.Cmd{Op: "records", S: stream, N: 8 << 16, Seed: 1})
+	select {
+	case <-gate.entered:
+	case <-time.After(10 * time.Second):
+		out["err"] = "host A never received any output"
+		return out
+	}
+	out["setup_ok"] = true
+	time.Sleep(time.Duration(c.StallMs) * time.Millisecond) // the stream to A backs up
+	rc := p.Client.ReattachConfig()
+	gc.Conn.Close() // A's connection goes away; the plugin is not told to stop
+	bufB := &vp.SyncBuf{}
+	cfgB := &plugin.ClientConfig{HandshakeConfig: p.Config.HandshakeConfig, Plugins: p.Config.Plugins, VersionedPlugins: p.Config.VersionedPlugins,
+		Reattach: rc, Logger: hclog.NewNullLogger(), AllowedProtocols: p.Config.AllowedProtocols, SyncStdout: bufB, SyncStderr: bufB}
+	hostB := plugin.NewClient(cfgB)
+	cpB, err := hostB.Client()
+	if err != nil {
+		out["err"] = "host B: " + err.Error()
+		out["setup_ok"] = false
+		return out
+	}
+	deadline := time.Now().Add(8 * time.Second)
+	for time.Now().Before(deadline) && bufB.Len() < 256<<10 {
+		time.Sleep(20 * time.Millisecond)
+	}
+	out["alive"] = cpB.Ping() == nil
+	got := bufB.Bytes()
+	// B may start in the middle of a record: skip to the first record boundary
+	if i := bytes.IndexByte(got, '\n'); i >= 0 {
+		got = got[i+1:]
+	} else {
+		got = nil
+	}
+	prev, recs, runs, garbage := -1, 0, 0, 0
+	for len(got) >= 16 {
+		n, perr := strconv.Atoi(string(got[:15]))
+		if perr != nil || got[15] != '\n' {
+			garbage++
+			if garbage == 1 {
+				out["first_garbage"] = fmt.Sprintf("%q after record %d", got[:16], prev)
+			}
+			prev = -1
+		} else {
+			if prev < 0 || n != prev+1 {
+				runs++
+				if runs == 2 {
+					out["first_break"] = fmt.Sprintf("record %d follows record %d", n, prev)
+				}
+			}
+			prev = n
+			recs++
+		}
+		got = got[16:]
+	}
+	out["b_records"], out["b_runs"], out["b_garbage"] = recs, runs, garbage
+	// B is the reattached client: its Kill asks the plugin to stop
+	hostB.Kill()
+	return out
 }
 
 func expectedStream(ws []vp.StdioWrite, stream string) ([]byte, []int) {
@@ -42,6 +152,9 @@ func expectedStream(ws []vp.StdioWrite, stream string) ([]byte, []int) {
 }
 
 func runStdioCase(c sioCase, bin, tmp string) map[string]interface{} {
+	if c.Kind == "handover" {
+		return runHandoverCase(c, bin, tmp)
+	}
 	out := map[string]interface{}{"setup_ok": false, "panic": false, "alive": false}
 	wire, mux := protoSets(c.Proto)
 	pc := &vp.PluginCfg{LegacyVersion: 1, Legacy: &vp.SetCfg{Proto: wire, Tag: "1"}, GRPCServer: wire == "grpc", StdioScript: c.Pre}
@@ -202,7 +315,7 @@ func TestStdioCases(t *testing.T) {
 				cw.begin(c.Name)
 				o := runStdioCase(c, bin, tmp)
 				cw.end(c.Name)
-				ow.write(map[string]interface{}{"name": c.Name, "proto": c.Proto, "npre": len(c.Pre), "nscript": len(c.Script), "with_rpc": c.WithRPC, "out": o})
+				ow.write(map[string]interface{}{"name": c.Name, "proto": c.Proto, "kind": c.Kind + "-", "npre": len(c.Pre), "nscript": len(c.Script), "with_rpc": c.WithRPC, "out": o})
 			}
 		}()
 	}
